@@ -32,6 +32,9 @@ func okList(parts ...[]byte) string {
 	for i, p := range parts {
 		s[i] = hx(p)
 	}
+	for i, p := range parts {
+		ownResult(p, s[i])
+	}
 	return "ok " + strings.Join(s, ",")
 }
 
